@@ -55,7 +55,7 @@ def gen(rng, tier):
     step = rng.choice(STEPS)
     stop_rel = rng.choice(STOPS)
     return dict(frames=frames, sr=sr, memory=rng.choice([0, 0, 1, 2]), ndim=ndim, max_size=rng.choice([2, 3, 3, 4, 5]),
-                strategy=rng.choice(['recursive', 'recursive', 'nonrecursive', 'numba']), step=step, stop_rel=stop_rel)
+                strategy=rng.choice(['recursive', 'nonrecursive', 'numba', 'hybrid', 'hybrid', 'auto']), step=step, stop_rel=stop_rel)
 
 
 def degenerate(c):
